@@ -104,6 +104,17 @@ Definition rank_of (rt : list (N * N)) (i : N) : N :=
 Definition live_instance (G : graph) (order : list N) : bool :=
   let rt := rank_table G order in live_graph G (rank_of rt).
 
+(* the rank supplied as an explicit table (a certificate computed by the harness from the graph alone: a layering
+   of the dependency constraints, independent of the schedule that happened to be recorded) *)
+Definition live_ranked (G : graph) (ranks : list (N * N)) : bool := live_graph G (rank_of ranks).
+
+Definition live_failures_ranked (G : graph) (ranks : list (N * N)) : list N * list N * list N :=
+  let rk := rank_of ranks in
+  let tbl := id_table G in
+  (map jid (filter (fun d => negb (also_rank_ok rk d)) (all_decls G)),
+   map fst (filter (fun h => negb (handler_ok G rk tbl h)) (handlers G)),
+   map jid (filter (fun d => negb (static_ok G rk tbl d)) (statics G))).
+
 (* diagnostics: the declarations / handlers the check rejects *)
 Definition live_failures (G : graph) (order : list N) : list N * list N * list N :=
   let rt := rank_table G order in
